@@ -10,7 +10,8 @@ def pack4(vals):
     return ((v[:, 0] << 4) | (v[:, 1] & 0xF)).astype(np.uint8)      # big bit order: first sample in the high nibble
 
 
-def write_psrfits(path, raw, nsblk, nbits, ascending, fch1, foff, tsamp, scl, offs, wts, pol_type, zero_off=0.0):
+def write_psrfits(path, raw, nsblk, nbits, ascending, fch1, foff, tsamp, scl, offs, wts, pol_type, zero_off=0.0,
+                  chan_bw_sign="consistent"):
     """raw: (nsamps, npol, nchan) integers < 2**nbits in DESCENDING-frequency channel order
     (channel 0 = fch1, foff < 0); stored ascending when `ascending`.  scl/offs: (nsub, npol*nchan), wts: (nsub, nchan),
     given in the STORED channel order."""
@@ -52,7 +53,7 @@ def write_psrfits(path, raw, nsblk, nbits, ascending, fch1, foff, tsamp, scl, of
                         array=darr.reshape(nsub, -1))]
     tb = fits.BinTableHDU.from_columns(cols, name="SUBINT")
     for k, v in dict(NPOL=npol, POL_TYPE=pol_type, TBIN=tsamp, NBITS=nbits, ZERO_OFF=zero_off, SIGNINT=0, NSUBOFFS=0,
-                     NCHAN=nchan, CHAN_BW=float(-foff if ascending else foff), NCHNOFFS=0, NSBLK=nsblk,
+                     NCHAN=nchan, CHAN_BW=_chan_bw(foff, ascending, chan_bw_sign), NCHNOFFS=0, NSBLK=nsblk,
                      NSTOT=nsamps).items():
         tb.header[k] = v
     fits.HDUList([pri, tb]).writeto(path, overwrite=True)
@@ -76,3 +77,10 @@ def expected_total_intensity(raw, nsblk, ascending, scl, offs, wts, pol_type, ze
         else:
             out[i * nsblk:(i + 1) * nsblk] = cal[:, 0, :]
     return out
+
+
+def _chan_bw(foff, ascending, how):
+    """the SUBINT keyword CHAN_BW: files in the wild carry it signed like the DAT_FREQ step ("consistent"), as an
+    unsigned width ("unsigned") or with the opposite sign ("opposite"); the channel order is what DAT_FREQ says"""
+    step = -foff if ascending else foff
+    return float({"consistent": step, "unsigned": abs(step), "opposite": -step}[how])
